@@ -132,7 +132,6 @@ def run(ck):
     ck.require_fact("R1.bind-gates", fl, bind, E.m_is_mem(IGNORE), False, "popRequest()", why="(the rest of a discarded reply would be bound to a request)")
     ck.require_fact("R1.bind-gates", fl, bind, E.m_is_mem(REPLYX), False, "popRequest()", why="(a second request would be bound while a reply is being accumulated)")
     for s in ck.sites(fl, bind, "popRequest()", 1):
-        v = s.tracked("needsMore") if hasattr(s, "tracked") else None
         if s.has(more, False) or s.env.get("needsMore") == ("c", 0):
             ck.ok("R1.bind-needs-complete-id", s.where(), "popRequest() reached only with needsMore false")
         else:
